@@ -4,6 +4,8 @@ package harness
 
 import (
 	"encoding/json"
+	"os"
+	"regexp"
 	"sort"
 	"sync"
 
@@ -66,6 +68,9 @@ type Outcome struct {
 	Digest     string `json:"digest,omitempty"`
 	SchedHash  string `json:"schedHash,omitempty"`
 	Tape       []int  `json:"tape,omitempty"`
+	// KnownHits counts violations that matched a listed known finding
+	// (description -> count); the run went on exploring after them.
+	KnownHits map[string]int `json:"knownHits,omitempty"`
 	// ReplayPlan, when set with a violation, is the reduced plan that
 	// reproduces it (e.g. the single decisive fault out of an enumeration).
 	ReplayPlan *Plan `json:"replayPlan,omitempty"`
@@ -150,4 +155,55 @@ func MustJSON(v any) json.RawMessage {
 		panic(err)
 	}
 	return b
+}
+
+// --- known findings (read-only at run time) ---
+
+type knownFinding struct {
+	Property string `json:"property"`
+	Sig      string `json:"sig"`
+	What     string `json:"what"`
+	re       *regexp.Regexp
+}
+
+var known []knownFinding
+
+// LoadKnown reads KNOWN_FINDINGS.json.
+func LoadKnown(path string) {
+	b, err := os.ReadFile(path)
+	if err != nil {
+		return
+	}
+	var f struct {
+		Findings []knownFinding `json:"findings"`
+	}
+	if json.Unmarshal(b, &f) != nil {
+		return
+	}
+	for _, k := range f.Findings {
+		re, err := regexp.Compile(k.Sig)
+		if err != nil {
+			continue
+		}
+		k.re = re
+		known = append(known, k)
+	}
+}
+
+// Known reports whether a violation signature is a listed known finding.
+func Known(prop, sig string) (string, bool) {
+	for _, k := range known {
+		if k.Property == prop && k.re.MatchString(sig) {
+			return k.What, true
+		}
+	}
+	return "", false
+}
+
+// NoteKnown records a known-finding hit on the outcome.
+func (o *Outcome) NoteKnown(what string) {
+	if o.KnownHits == nil {
+		o.KnownHits = map[string]int{}
+	}
+	o.KnownHits[what]++
 }
